@@ -56,7 +56,9 @@ CONSTANTS
   MaxMsg,     \* messages per stream
   Seg,        \* "none": only build + emit;  "all": additionally every segmentation
   ReqSeqs,    \* client view: set of request-method sequences ("GET","HEAD","POST") to pair with a stream
-  Eofs        \* client view: subset of {FALSE, TRUE}: peer closes after the last octet?
+  Eofs,       \* client view: subset of {FALSE, TRUE}: peer closes after the last octet?
+  Prefixes,   \* TRUE: Emit also prints the results for every proper prefix followed by the sender's close
+  RecvSizes   \* read sizes explored by Recv ({} = every size; the rest of the stream is always included)
 
 VARIABLES msgs, mode, pos, S, ctx
 
@@ -481,7 +483,9 @@ Seal(rq, eof) == /\ mode = "build" /\ Complete
                  /\ UNCHANGED <<msgs, pos>>
 Recv == /\ mode = "recv"
         /\ LET B == Bytes(msgs) IN
-             \E k \in 1..(Len(B) - pos) : S' = Feed(S, SubSeq(B, pos + 1, pos + k)) /\ pos' = pos + k
+             \E k \in 1..(Len(B) - pos) :
+               /\ (RecvSizes = {} \/ k \in RecvSizes \/ k = Len(B) - pos)
+               /\ S' = Feed(S, SubSeq(B, pos + 1, pos + k)) /\ pos' = pos + k
         /\ UNCHANGED <<msgs, mode, ctx>>
 Eof == /\ mode = "recv" /\ pos = Len(Bytes(msgs)) /\ ctx.eof
        /\ S' = FeedEof(S) /\ mode' = "end"
@@ -537,9 +541,13 @@ ValJ(v) == v
 HdrJ(h) == [i \in 1..Len(h) |-> [n |-> h[i].n, v |-> h[i].v]]
 OutJ(o) == [i \in 1..Len(o) |-> [m |-> o[i].m, t |-> o[i].t, v |-> o[i].v, code |-> o[i].code, h |-> HdrJ(o[i].h),
                                  trl |-> HdrJ(o[i].trl), b |-> o[i].b, anyb |-> o[i].anyb]]
+AltsJ(R) == SetToSeq({[out |-> OutJ(r.out), end |-> r.end] : r \in R})
 Emit == (mode = "sealed") =>
-  PrintT(ToJson([toks |-> msgs, bytes |-> Bytes(msgs), rq |-> ctx.rq, eof |-> ctx.eof,
-                 alts |-> SetToSeq({[out |-> OutJ(r.out), end |-> r.end] : r \in Frame(Bytes(msgs), ctx.rq, ctx.eof)})]))
+  LET B == Bytes(msgs) IN
+  PrintT(ToJson([toks |-> msgs, bytes |-> B, rq |-> ctx.rq, eof |-> ctx.eof,
+                 alts |-> AltsJ(Frame(B, ctx.rq, ctx.eof)),
+                 pre |-> IF Prefixes THEN [p \in 1..(Len(B) - 1) |-> AltsJ(Frame(SubSeq(B, 1, p), ctx.rq, TRUE))]
+                         ELSE <<>>]))
 
 GenConstraint == TRUE
 =============================================================================
